@@ -15,7 +15,7 @@ Proof. exact spec_ok_on_model. Qed.
 Theorem C18_spec_ok_serve_iff : forall entries steps o,
   spec_ok (CServe entries steps) o = true <->
   wf_case (CServe entries steps) = true /\
-  o = OServe (map (spec_sout (spec_allowlist (map snd entries))) steps).
+  o = OServe (map (spec_sout (spec_allowlist_s (map snd entries))) steps).
 Proof. exact spec_ok_serve_iff. Qed.
 
 Theorem C18_spec_ok_entry_sound : forall e intent peers o,
@@ -43,6 +43,16 @@ Theorem C18_none_allows_all : forall peer target render_out,
   respond (allowed None peer) target render_out =
     (200, if bytes_eqb (req_path target) health then ok_body else render_out).
 Proof. exact none_allows_all. Qed.
+
+(* ---- address families never cross (an IPv6 peer such as ::1, ::a.b.c.d or ::ffff:a.b.c.d is an IPv6 address) *)
+Theorem C18_other_family_never_matches : forall a p peer,
+  same_family a peer = false -> contains (a, p) peer = false.
+Proof. exact other_family_never_matches. Qed.
+
+Theorem C18_only_other_family_listed_forbidden : forall nets peer target render_out,
+  forallb (fun n => negb (same_family (fst n) peer)) nets = true ->
+  respond (allowed (Some nets) peer) target render_out = (403, []).
+Proof. exact only_other_family_listed_forbidden. Qed.
 
 (* ---- CIDR containment *)
 Theorem C18_cidr_edges : forall a p peer,
@@ -111,26 +121,39 @@ Theorem C18_connections_independent : forall evs s,
   st_allow (fst (run s evs)) = st_allow s /\ st_listening (fst (run s evs)) = st_listening s.
 Proof. exact connections_independent. Qed.
 
-Theorem C18_served_per_spec : forall es r0,
+Theorem C18_served_per_spec : forall entries r0,
+  forallb entry_ok entries = true ->
+  exists nets, parse_all true (map fst entries) = Some nets /\
+    forall evs peer target, wf_ip peer = true ->
+      let s1 := fst (run (init_state (allowlist_of nets) r0) evs) in
+      snd (step (fst (step s1 (Accept peer))) (Conn (st_next s1) (EvRequest target))) =
+        Some (spec_respond (spec_allowlist_s (map snd entries)) peer target (st_render s1)).
+Proof. exact served_per_spec. Qed.
+
+Theorem C18_served_per_spec_v4 : forall es r0,
   forallb wf_entry4 es = true ->
   exists nets, parse_all true (map print_entry4 es) = Some nets /\
     forall evs peer target, wf_ip peer = true ->
       let s1 := fst (run (init_state (allowlist_of nets) r0) evs) in
       snd (step (fst (step s1 (Accept peer))) (Conn (st_next s1) (EvRequest target))) =
         Some (spec_respond (spec_allowlist es) peer target (st_render s1)).
-Proof. exact served_per_spec. Qed.
+Proof. exact served_per_spec_v4. Qed.
 
 (* hypotheses are satisfiable, on a non-trivial case: allowlist 127.0.0.0/30 and plain 127.9.0.1; one peer at
    the last address of the block, one just outside, one equal to the plain entry; an update in between *)
 Example C18_example :
   let e1 := {| e_addr := 2130706432; e_plen := 30; e_plain := false |} in
   let e2 := {| e_addr := 2131296257; e_plen := 32; e_plain := true |} in
-  let c := CServe [(print_entry4 e1, e1); (print_entry4 e2, e2)]
-             [SConn 2130706435 [114; 49] [[47; 109]; health; health ++ [63; 120]];
-              SConn 2130706436 [114; 49] [[47; 109]];
-              SFault 0 2130706433; SInc;
-              SBurst 2 2131296257 [114; 50] [47]] in
+  let c := CServe [(print_entry4 e1, E4 e1); (print_entry4 e2, E4 e2); ([58; 58; 49], EP (V6 1, 128))]
+             [SConn (V4 2130706435) [114; 49] [[47; 109]; health; health ++ [63; 120]];
+              SConn (V4 2130706436) [114; 49] [[47; 109]];
+              SFault 0 (V4 2130706433); SInc;
+              SBurst 2 (V4 2131296257) [114; 50] [47];
+              SConn (V6 1) [114; 50] [[47]];                                (* ::1 is listed *)
+              SConn (V6 (65535 * 2 ^ 32 + 2130706433)) [114; 50] [[47]];    (* ::ffff:127.0.0.1 is not 127.0.0.1 *)
+              SConn (V4 1) [114; 50] [[47]]] in                             (* 0.0.0.1 is not ::1 *)
   wf_case c = true /\
   run_case c = OServe [OC [(200, [114; 49]); (200, ok_body); (200, ok_body)]; OC [(403, [])]; OFault; OInc;
-                       OB [(200, [114; 50]); (200, [114; 50])]].
+                       OB [(200, [114; 50]); (200, [114; 50])];
+                       OC [(200, [114; 50])]; OC [(403, [])]; OC [(403, [])]].
 Proof. vm_compute. split; reflexivity. Qed.
